@@ -43,9 +43,11 @@ def escBelow (n k : Nat) (e : Addr) : M Ctl := do
 /-- the boundary of the simulation: the error `e` was not taken by any handler of the invoked function's
     frame or of the frames above it.  The child's `throw` returned it (its `Run` returns it to Go); the
     parent's instruction ended as `escBelow` ends from a state `u` with the child's heap, globals and module
-    cache: the search goes on in the CALLER's frames, where the two sides legitimately differ. -/
-def EscQ (k : Nat) (e : Addr) (r' : Ctl) (s' t' : State) : Prop :=
+    cache, whose frames below `k` and stack below the callee's slot are those of `T0` (the parent at the entry of the
+    function): the search goes on in the CALLER's frames, where the two sides legitimately differ. -/
+def EscQ (T0 : State) (bp k : Nat) (e : Addr) (r' : Ctl) (s' t' : State) : Prop :=
   ∃ n u, u.heap = s'.heap ∧ u.globals = s'.globals ∧ u.modules = s'.modules ∧ u.err = none ∧
+    (∀ j : Nat, j < k → u.frames[j]! = T0.frames[j]!) ∧ (∀ i : Nat, i + 1 < bp → u.stack[i]! = T0.stack[i]!) ∧
     exec (escBelow n k e) u = (.ok r', t')
 
 /-- after one instruction (not the RETURN of the invoked function itself): both VMs continue in related
@@ -53,8 +55,8 @@ def EscQ (k : Nat) (e : Addr) (r' : Ctl) (s' t' : State) : Prop :=
     of the invoked function), or the child's loop returns with `vm.err = e` and the parent goes on
     unwinding below frame `k` (`EscQ`), or both loops return with the same Go error (malformed bytecode:
     unknown opcode, wrong THROW operand) -/
-def PostC (bp k : Nat) (r r' : Ctl) (s t : State) : Prop :=
-  (r = .next ∧ r' = .next ∧ ∃ d, ShB bp k d s t) ∨ (r = .ret ∧ ∃ e, s.err = some (.rt e) ∧ EscQ k e r' s t) ∨
+def PostC (T0 : State) (bp k : Nat) (r r' : Ctl) (s t : State) : Prop :=
+  (r = .next ∧ r' = .next ∧ ∃ d, ShB T0 bp k d s t) ∨ (r = .ret ∧ ∃ e, s.err = some (.rt e) ∧ EscQ T0 bp k e r' s t) ∨
   (r = .ret ∧ r' = .ret ∧ (∃ m, s.err = some (.goerr m) ∧ t.err = some (.goerr m)) ∧
     s.heap = t.heap ∧ s.globals = t.globals ∧ s.modules = t.modules)
 
@@ -71,14 +73,14 @@ theorem RelS.errR_bind' {α β γ} {A : State → State → Prop} {Q : β → γ
   simp at h2
 
 section
-variable {bp k d H N : Nat} {a : Int}
+variable {T0 : State} {bp k d H N : Nat} {a : Int}
 
 theorem sh_next (ha : a ≤ N) (hH : H ≤ N) :
-    RelS (Sh bp k d H N a) (PostC bp k) (pure Ctl.next) (pure Ctl.next) :=
+    RelS (Sh T0 bp k d H N a) (PostC T0 bp k) (pure Ctl.next) (pure Ctl.next) :=
   RelS.pure (fun s t h => Or.inl ⟨rfl, rfl, d, H, N, a, h, ha, hH⟩)
 
 theorem sh_pushV (v : V) (ha : a ≤ N) :
-    RelS (Sh bp k d H N a) (PQ (fun _ _ => True) (Sh bp k d H (max N (a.toNat + 1)) (a + 1))) (pushV v) (pushV v) := by
+    RelS (Sh T0 bp k d H N a) (PQ (fun _ _ => True) (Sh T0 bp k d H (max N (a.toNat + 1)) (a + 1))) (pushV v) (pushV v) := by
   unfold pushV
   refine RelS.bindV sh_getSp ?_
   rintro _ _ ⟨rfl, rfl⟩
@@ -95,8 +97,8 @@ def OpLt (s : State) : Prop :=
   ∀ idx s', exec (opnd1 1) s = (.ok idx, s') → (s.frames[s.curFrame]!).bp + (idx : Int) < s.sp
 
 theorem sh_opnd1_lt :
-    RelS (fun s t => Sh bp k d H N a s t ∧ OpLt s)
-      (fun (x y : Nat) s t => x = y ∧ Sh bp k d H N a s t ∧ (s.frames[d]!).bp + (x : Int) < a) (opnd1 1) (opnd1 1) := by
+    RelS (fun s t => Sh T0 bp k d H N a s t ∧ OpLt s)
+      (fun (x y : Nat) s t => x = y ∧ Sh T0 bp k d H N a s t ∧ (s.frames[d]!).bp + (x : Int) < a) (opnd1 1) (opnd1 1) := by
   intro s t h x s' y t' h1 h2
   have := sh_foot (foot_opnd1 1) s t h.1 x s' y t' h1 h2
   refine ⟨this.1, this.2, ?_⟩
@@ -109,8 +111,8 @@ theorem sh_opnd1_lt :
   exact hb
 
 theorem sh_curFrame_lt (x : Int) :
-    RelS (fun s t => Sh bp k d H N a s t ∧ (s.frames[d]!).bp + x < a)
-      (PQ (fun f g => FrameSh bp H f g ∧ f.bp + x < a) (Sh bp k d H N a)) curFrame curFrame := by
+    RelS (fun s t => Sh T0 bp k d H N a s t ∧ (s.frames[d]!).bp + x < a)
+      (PQ (fun f g => FrameSh bp H f g ∧ f.bp + x < a) (Sh T0 bp k d H N a)) curFrame curFrame := by
   intro s t h f s' g t' h1 h2
   have e1 : exec curFrame s = (.ok (s.frames[s.curFrame]!), s) := rfl
   have e2 : exec curFrame t = (.ok (t.frames[t.curFrame]!), t) := rfl
@@ -122,7 +124,7 @@ theorem sh_curFrame_lt (x : Int) :
   · rw [h.1.curS, h.1.curT]; exact h.1.frame
   · rw [h.1.curS]; exact h.2
 
-theorem sh_getS : RelS (Sh bp k d H N a) (PQ (Sh bp k d H N a) (Sh bp k d H N a)) getS getS := by
+theorem sh_getS : RelS (Sh T0 bp k d H N a) (PQ (Sh T0 bp k d H N a) (Sh T0 bp k d H N a)) getS getS := by
   intro s t h x s' y t' h1 h2
   simp only [exec_getS, Prod.mk.injEq, Except.ok.injEq] at h1 h2
   obtain ⟨rfl, rfl⟩ := h1
@@ -130,7 +132,7 @@ theorem sh_getS : RelS (Sh bp k d H N a) (PQ (Sh bp k d H N a) (Sh bp k d H N a)
   exact ⟨h, h⟩
 
 theorem sh_setModule (i : Nat) (v : V) :
-    RelS (Sh bp k d H N a) (PQ (fun _ _ => True) (Sh bp k d H N a))
+    RelS (Sh T0 bp k d H N a) (PQ (fun _ _ => True) (Sh T0 bp k d H N a))
       (modS fun s => { s with modules := s.modules.set! i v }) (modS fun s => { s with modules := s.modules.set! i v }) := by
   intro s t h x s' y t' h1 h2
   simp only [exec_modS, Prod.mk.injEq, Except.ok.injEq] at h1 h2
@@ -150,7 +152,7 @@ theorem exec_stackSlice' (lo hi : Int) (s : State) :
   · simp only [exec_bind, exec_getS, exec_pure]
 
 theorem sh_stackSlice (lo hi lo' hi' : Int) (h1 : lo' = lo + bp) (h2 : hi' = hi + bp) (hN : hi ≤ N) :
-    RelS (Sh bp k d H N a) (PQ Eq (Sh bp k d H N a)) (stackSlice lo hi) (stackSlice lo' hi') := by
+    RelS (Sh T0 bp k d H N a) (PQ Eq (Sh T0 bp k d H N a)) (stackSlice lo hi) (stackSlice lo' hi') := by
   intro s t h x s' y t' e1 e2
   rw [exec_stackSlice'] at e1 e2
   by_cases hb : (decide (lo < 0) || decide (hi > (stackSize : Int)) || decide (lo > hi)) = true
@@ -182,7 +184,7 @@ theorem sh_stackSlice (lo hi lo' hi' : Int) (h1 : lo' = lo + bp) (h2 : hi' = hi 
       · simp only [hlt, if_false]
 
 theorem sh_stackSet_grow (i j : Int) (v : V) (hj : j = i + bp) (hi : i ≤ N) :
-    RelS (Sh bp k d H N a) (PQ (fun _ _ => True) (Sh bp k d H (max N (i.toNat + 1)) a)) (stackSet i v) (stackSet j v) :=
+    RelS (Sh T0 bp k d H N a) (PQ (fun _ _ => True) (Sh T0 bp k d H (max N (i.toNat + 1)) a)) (stackSet i v) (stackSet j v) :=
   sh_stackSet i j v hj _ (by intro h0; omega)
 
 /-! ### automation -/
